@@ -237,16 +237,22 @@ func (d delivery) perturbing() bool {
 	return d.MaxDelayMs > 0 || d.Dup || d.FailOnce || d.SlowNode >= 0
 }
 
-func genDelivery(rt *rapid.T, n int) delivery {
+// spare = number of participants the protocol can lose (n - t): with spare >= 1 the slow node may be slow enough to miss the
+// deal phase altogether (its bundles arrive 5 s late with 2 s phases), so that the others complete without it.
+func genDelivery(rt *rapid.T, n int, spare int) delivery {
 	d := delivery{SlowNode: -1}
 	if rapid.Bool().Draw(rt, "delays") {
 		d.MaxDelayMs = rapid.SampledFrom([]int{5, 40, 150}).Draw(rt, "maxDelay")
 	}
 	d.Dup = rapid.IntRange(0, 3).Draw(rt, "dup") == 0
 	d.FailOnce = rapid.IntRange(0, 3).Draw(rt, "failOnce") == 0
-	if n >= 2 && rapid.IntRange(0, 2).Draw(rt, "slow") == 0 {
+	switch slow := rapid.IntRange(0, 3).Draw(rt, "slow"); {
+	case n >= 2 && slow == 0:
 		d.SlowNode = rapid.IntRange(0, n-1).Draw(rt, "slowNode")
 		d.SlowMs = rapid.SampledFrom([]int{100, 400, 900}).Draw(rt, "slowMs")
+	case n >= 3 && spare >= 1 && slow == 1:
+		d.SlowNode = rapid.IntRange(0, n-1).Draw(rt, "slowNode")
+		d.SlowMs = 5000
 	}
 	return d
 }
@@ -271,7 +277,12 @@ func (d delivery) policy(seed uint64, addrs []string) Policy {
 			if d.MaxDelayMs > 0 {
 				t = time.Duration(next()%uint64(d.MaxDelayMs+1)) * time.Millisecond
 			}
-			if slow != "" && (m.From == slow || m.To == slow) {
+			if slow != "" && d.SlowMs >= 5000 {
+				// too slow for a phase: only what the node contributes to the protocol is late (it still hears the others)
+				if m.From == slow && strings.HasPrefix(m.Kind, "dkg:") {
+					t += time.Duration(d.SlowMs) * time.Millisecond
+				}
+			} else if slow != "" && (m.From == slow || m.To == slow) {
 				t += time.Duration(d.SlowMs) * time.Millisecond
 			}
 			return t
@@ -300,7 +311,7 @@ func TestC06FirstDKG(t *testing.T) {
 			j := rapid.IntRange(0, i).Draw(rt, "swap")
 			perm[i], perm[j] = perm[j], perm[i]
 		}
-		del := genDelivery(rt, n)
+		del := genDelivery(rt, n, n-thr)
 		period := rapid.SampledFrom([]uint32{1, 3, 30}).Draw(rt, "period")
 		desc := fmt.Sprintf("first-dkg %s n=%d t=%d leader=%d order=%v period=%ds %s", scheme, n, thr, leader, perm, period, del)
 
@@ -379,6 +390,9 @@ func TestC06FirstDKG(t *testing.T) {
 		if del.SlowNode >= 0 {
 			labels = append(labels, "slow-node")
 		}
+		if del.SlowMs >= 5000 {
+			labels = append(labels, "slow-node-misses-deal-phase", fmt.Sprintf("misses-phase/finishers=%d-of-%d", len(fin), n))
+		}
 		rec.Case(desc, n >= 3 && (!identity || del.perturbing()), labels...)
 	})
 }
@@ -419,7 +433,7 @@ func TestC06Reshare(t *testing.T) {
 			n1 = 7
 		}
 		t1 := rapid.IntRange(n1/2+1, n1).Draw(rt, "t1")
-		del := genDelivery(rt, n1)
+		del := genDelivery(rt, n1, 0)
 		genesis := time.Now().Add(-100 * time.Second).Unix()
 		prev := fx.NewNet(seed, fx.Opts{Scheme: scheme, N: n0, T: t0, Period: time.Duration(period) * time.Second, Catchup: time.Second, Genesis: genesis, BeaconID: "c06", BasePort: 32000})
 		wdStop := Watchdog("c06reshare", 150*time.Second)
